@@ -204,8 +204,6 @@ func (schema *Schema) UnmarshalJSON(data []byte) error {
 	}
 	_ = json.Unmarshal(data, &x.Extensions)
 
-	delete(x.Extensions, "oneOf")
-	delete(x.Extensions, "anyOf")
 	delete(x.Extensions, "allOf")
 	delete(x.Extensions, "not")
 	delete(x.Extensions, "type")
@@ -223,7 +221,6 @@ func (schema *Schema) UnmarshalJSON(data []byte) error {
 	delete(x.Extensions, "exclusiveMinimum")
 	delete(x.Extensions, "exclusiveMaximum")
 	// Properties
-	delete(x.Extensions, "nullable")
 	delete(x.Extensions, "readOnly")
 	delete(x.Extensions, "writeOnly")
 	delete(x.Extensions, "allowEmptyValue")
